@@ -15,6 +15,9 @@ type e1Spec struct {
 	entry string
 	// probe is run under the hooks to obtain the implementation configuration.
 	probe func(w []byte)
+	// probes, if set, are run one after another under the hooks and their configurations are
+	// concatenated (product key of several machines).
+	probes []func(w []byte)
 	// check compares implementation and oracles on w. a is the reference PDA after w (digit
 	// saturation digSat). bad=="" means agreement. oracleFault means reference != stdlib.
 	check func(w []byte, a *ref.PDA) (bad string, oracleFault bool, exp, got string)
@@ -27,7 +30,10 @@ type e1Spec struct {
 	digSat   int
 	maxLen   int
 	noPump   bool
-	roots    [][]byte
+	// refAliveOnly: an implementation that is still alive where the reference is dead does not
+	// extend the search (used where the property only constrains reference-accepted inputs).
+	refAliveOnly bool
+	roots        [][]byte
 }
 
 type e1Result struct {
@@ -54,6 +60,11 @@ func runE1(r *eng.Run, sp e1Spec, D, K, maxStates int) e1Result {
 		pan := guard(func() {
 			if sp.probe != nil {
 				cfg, implAlive = hooked(func() { sp.probe(w) })
+			}
+			for _, pr := range sp.probes {
+				c, al := hooked(func() { pr(w) })
+				cfg += "&" + c
+				implAlive = implAlive || al
 			}
 			bad, of, exp, got := sp.check(w, a)
 			if of {
@@ -90,7 +101,7 @@ func runE1(r *eng.Run, sp e1Spec, D, K, maxStates int) e1Result {
 		if sp.alive != nil {
 			al = sp.alive(w, a)
 		}
-		expand := (al || (wb && implAlive)) && a.Depth() <= D && len(w) <= sp.maxLen
+		expand := (al || (wb && implAlive && !sp.refAliveOnly)) && a.Depth() <= D && len(w) <= sp.maxLen
 		return key, expand
 	}
 	thorough := r.Thorough()
